@@ -283,3 +283,61 @@ example : isConsec [3, 4, 5] = true := by decide
 example : isConsec [3, 5] = false := by decide
 
 end Rex.Sched
+
+namespace Rex.Sched
+
+/-! ## reads of messages written *before* the writes the ring has seen (execution started at a later partition) -/
+
+/-- a real message `q` older than the first write `a` the ring has seen, with the write front still within `B` of it:
+its slot still holds the default output, never another message -/
+theorem Ring.read_before_start (B : Nat) (hB : 0 < B) (a : Int) (k : Nat) (q : Int)
+    (hq : q < a) (hlive : a + k ≤ q + B) :
+    ((Ring.init B).writes a k).readOk false q = true := by
+  have inv := Ring.slotInv_writes B hB a k
+  have hsz : ((Ring.init B).writes a k).size = B := by rw [Ring.size_writes]; rfl
+  obtain ⟨hlen, hs⟩ := inv
+  rw [hsz] at hs hlen
+  have := hs (slotOf q B) (slotOf_lt q B hB)
+  simp only [Ring.readOk, hsz]
+  cases hd : ((Ring.init B).writes a k).data[slotOf q B]? with
+  | none => rw [hd] at this; exact this.elim
+  | some o =>
+    rw [hd] at this
+    cases o with
+    | none => simp
+    | some s =>
+      exfalso
+      obtain ⟨h1, h2, _, h4⟩ := this
+      -- s and q share a slot, q < a ≤ s < a + k ≤ q + B
+      have : s = q := slot_window_unique B s q (q + B) (by omega) (by omega) (by omega) (by omega) h4
+      omega
+
+/-- the default entry when the ring has only seen writes `a … a+k-1` with `a + k < B`: still the default output -/
+theorem Ring.read_default_from (B : Nat) (hB : 0 < B) (a : Int) (k : Nat) (strict : Bool) (ha : 0 ≤ a) (hlt : a + k < B) :
+    ((Ring.init B).writes a k).readOk strict (-1) = true := by
+  have inv := Ring.slotInv_writes B hB a k
+  have hsz : ((Ring.init B).writes a k).size = B := by rw [Ring.size_writes]; rfl
+  obtain ⟨hlen, hs⟩ := inv
+  rw [hsz] at hs hlen
+  have hslot : slotOf (-1) B = B - 1 := by
+    unfold slotOf
+    have : (-1 : Int) % (B : Int) = (B : Int) - 1 := by
+      rw [show (-1 : Int) = ((B : Int) - 1) + (B : Int) * (-1) by omega, Int.add_mul_emod_self_left]
+      exact Int.emod_eq_of_lt (by omega) (by omega)
+    rw [this]; omega
+  have := hs (B - 1) (by omega)
+  simp only [Ring.readOk, hsz, hslot]
+  cases hd : ((Ring.init B).writes a k).data[B - 1]? with
+  | none => rw [hd] at this; exact this.elim
+  | some o =>
+    rw [hd] at this
+    cases o with
+    | none => simp
+    | some s =>
+      exfalso
+      obtain ⟨h1, h2, _, h4⟩ := this
+      unfold slotOf at h4
+      rw [Int.emod_eq_of_lt (by omega) (by omega)] at h4
+      omega
+
+end Rex.Sched
